@@ -6,6 +6,8 @@ package main
 
 import (
 	"encoding/binary"
+	"encoding/json"
+	"flag"
 	"fmt"
 	"os"
 	"path/filepath"
@@ -205,4 +207,125 @@ func readAccountFile(usersDir, login string) (*hotline.Account, error) {
 		return nil, err
 	}
 	return &a, nil
+}
+
+// ---------------------------------------------------------------- request builders (account editing)
+
+func obf(s string) []byte { return hotline.EncodeString([]byte(s)) }
+
+// newUserTran: transaction 350.  access == nil omits the access field.
+func newUserTran(id uint32, login, name, pw string, access []byte) hotline.Transaction {
+	fs := []hotline.Field{
+		fld(hotline.FieldUserLogin, obf(login)),
+		fld(hotline.FieldUserName, []byte(name)),
+		fld(hotline.FieldUserPassword, []byte(pw)),
+	}
+	if access != nil {
+		fs = append(fs, fld(hotline.FieldUserAccess, access))
+	}
+	return mkTran(hotline.TranNewUser, id, fs...)
+}
+
+func encSub(fs ...hotline.Field) []byte {
+	out := be16(len(fs))
+	for _, f := range fs {
+		out = append(out, f.Type[:]...)
+		out = append(out, be16(len(f.Data))...)
+		out = append(out, f.Data...)
+	}
+	return out
+}
+
+// editor sub-requests of transaction 349 (one FieldData each)
+func subCreateOrModify(login, name string, pw []byte, access []byte) hotline.Field {
+	fs := []hotline.Field{
+		fld(hotline.FieldUserLogin, obf(login)),
+		fld(hotline.FieldUserName, []byte(name)),
+	}
+	if pw != nil {
+		fs = append(fs, fld(hotline.FieldUserPassword, pw))
+	}
+	if access != nil {
+		fs = append(fs, fld(hotline.FieldUserAccess, access))
+	}
+	return fld(hotline.FieldData, encSub(fs...))
+}
+
+func subDelete(login string) hotline.Field {
+	return fld(hotline.FieldData, encSub(fld(hotline.FieldData, obf(login))))
+}
+
+func subRename(oldLogin, newLogin, name string, access []byte) hotline.Field {
+	return fld(hotline.FieldData, encSub(
+		fld(hotline.FieldData, obf(oldLogin)),
+		fld(hotline.FieldUserLogin, obf(newLogin)),
+		fld(hotline.FieldUserName, []byte(name)),
+		fld(hotline.FieldUserPassword, []byte{0}),
+		fld(hotline.FieldUserAccess, access),
+	))
+}
+
+// directClientWith registers a direct client for login and overrides its in-memory bitmap (all 64 positions,
+// including the ones the named account-file format cannot store).
+func directClientWith(ts *TS, login, addr string, access hotline.AccessBitmap) (*hotline.ClientConn, *nopConn) {
+	cc, nc := ts.DirectClient(login, []byte(login), addr)
+	if cc.Account != nil {
+		cc.Account.Access = access
+	}
+	cc.Flags.Set(hotline.UserFlagAdmin, 0)
+	if access.IsSet(hotline.AccessDisconUser) {
+		cc.Flags.Set(hotline.UserFlagAdmin, 1)
+	}
+	return cc, nc
+}
+
+// requesterReply picks the reply addressed to the requester out of a handler result.
+func requesterReplies(res []hotline.Transaction, cc *hotline.ClientConn) (replies []hotline.Transaction, others []hotline.Transaction) {
+	for _, t := range res {
+		if t.IsReply == 1 && t.ClientID == cc.ID {
+			replies = append(replies, t)
+		} else {
+			others = append(others, t)
+		}
+	}
+	return
+}
+
+// ---------------------------------------------------------------- table-driven families and replay
+
+// tableIndex returns the table position of a case.  In a normal run that is the case index; in replay mode
+// (one case, re-run from its seed) the runner passes index 0, so the position is recovered from the replay
+// file: the "idx" detail every table-driven case records, or by searching the index whose seed matches.
+func tableIndex(c *Case, n int) int {
+	idx := c.Idx
+	if rf := flag.Lookup("replay"); rf != nil && rf.Value.String() != "" {
+		if b, err := os.ReadFile(rf.Value.String()); err == nil {
+			var rp struct {
+				Seed   uint64         `json:"seed"`
+				Detail map[string]any `json:"detail"`
+			}
+			if json.Unmarshal(b, &rp) == nil {
+				found := false
+				if v, ok := rp.Detail["idx"].(float64); ok {
+					idx, found = int(v), true
+				}
+				for i := 0; !found && i < n; i++ {
+					if mix(rp.Seed, c.Fam, uint64(i)) == c.Seed {
+						idx, found = i, true
+					}
+				}
+			}
+		}
+	}
+	c.Note("idx", idx)
+	return idx
+}
+
+// resetNotes clears the per-sub-case notes but keeps the table position.
+func resetNotes(c *Case) {
+	idx, ok := c.Detail["idx"]
+	c.Detail = nil
+	if ok {
+		c.Note("idx", idx)
+	}
 }
